@@ -176,7 +176,7 @@ class MEIExporter:
         # Separate by staff
         staffs = np.vectorize(lambda x: x.staff)(note_or_rest_elements)
         voices = np.vectorize(lambda x: x.voice)(note_or_rest_elements)
-        unique_staffs, staff_inverse_map = np.unique(staffs, return_inverse=True)
+        unique_staffs = np.unique(staffs)
         unique_voices_par = np.unique(voices)
         voice_staff_map = {
             v: {
@@ -195,7 +195,7 @@ class MEIExporter:
             staff_el.set(XMLNS_ID, "staff-" + self.elc_id())
             if staff not in unique_staffs:
                 continue
-            staff_notes = note_or_rest_elements[staff_inverse_map == i]
+            staff_notes = note_or_rest_elements[staffs == staff]
             # Separate by voice
             voices = np.vectorize(lambda x: x.voice)(staff_notes)
             unique_voices, voice_inverse_map = np.unique(voices, return_inverse=True)
